@@ -43,6 +43,11 @@ THEOREMS += [t for t in THEOREMS_RESOLVE]
 # single pin unconnected (first name), no output connected (every name)}; exceptions = known findings D15 / D21 / D22, each
 # with a *_refuted theorem
 THEOREMS_LIB = cell_corr.THEOREMS_LIB
+# source tie of eliminate_1to1_forks (Properties/C10.v section 9; translate/gen_circuit_elim.py -> Gen/CircuitElimSrc.v,
+# Proofs/CircuitElimSrcProofs.v, Proofs/CircuitElimSrcExample.v)
+THEOREMS_ELIMSRC = ['C10_eliminate_source_is_model', 'C10_eliminate_source_is_model_ceq', 'C10_eliminate_body_source_is_model',
+                    'C10_eliminate_source_example']
+THEOREMS += THEOREMS_ELIMSRC
 
 
 def s_names(c):
@@ -196,6 +201,13 @@ def bench_style_circuit(rng):
     definition), INPUT / OUTPUT declarations at any position (also after all assignments, so that port forks get HIGH node indices),
     outputs that are also read by one or several internal gates, buffer chains (many 1:1 forks to eliminate)"""
     from kyupy import bench
+    if rng.random() < 0.05:
+        # one net with a fan-out beyond 256 branches (an unbuffered clock / enable / reset net): pin numbers of fork outputs exceed one byte
+        w = rng.choice([257, 300, 520])
+        outs = sorted(rng.sample(range(w), 4))
+        text = 'INPUT(a, b)\n' + ''.join(f'g{k} = {rng.choice(["AND", "OR", "XOR", "NAND"])}(a, {"b" if k % 3 else f"g{k - 1}" if k else "b"})\n' for k in range(w)) + \
+               f'OUTPUT({", ".join(f"g{k}" for k in outs)})\n'
+        return bench.parse(text), text
     chainy = rng.random() < 0.5        # long chains of single-reader gates, outputs at the end: more forks get eliminated than nodes follow a port fork
     n_in, n_g = rng.randint(1, 3), rng.randint(5, 10) if chainy else rng.randint(2, 8)
     ins = [f'i{k}' for k in range(n_in)]
@@ -663,10 +675,98 @@ def resolve_sem_correspondence(ck, rng, libs):
     return fails
 
 
+ELIM_SRC_STEP = '''From KV Require Import Model.CircuitElimSrcLib Gen.CircuitElimSrc.
+Definition step_p := step_src Node_init_src Node_remove_src Line_init_src Line_remove_src GrowingList_setitem_src.
+Definition step_s (c : circ) (o : op) : option circ :=
+  match o with Eliminate1to1 => Circuit_eliminate_1to1_forks_src c | _ => step_p c o end.
+'''
+FORK = '__fork__'
+# nodes a f s g z r: a -> f -> g.0, s -> g.1, g -> z -> r; a, z port forks (z: one driver, one reader), f internal 1:1 fork, s driverless
+ELIM_SRC_SCENARIOS = [
+    [['node', 'a', FORK], ['node', 'f', FORK], ['node', 's', FORK], ['node', 'g', 'AND2'], ['node', 'z', FORK], ['node', 'r', 'BUF1'],
+     ['line', 0, None, 1, None], ['line', 1, None, 3, 0], ['line', 2, None, 3, 1], ['line', 3, None, 4, None], ['line', 4, None, 5, None],
+     ['io', 0, 0], ['io', 1, 4], ['elim'], ['elim']],
+    # chain of internal 1:1 forks between two port forks, the LAST node is a port fork that moves into the freed slots
+    [['node', 'x', 'BUF1'], ['node', 'f1', FORK], ['node', 'f2', FORK], ['node', 'f3', FORK], ['node', 'y', 'BUF1'], ['node', 'p', FORK],
+     ['node', 'q', FORK], ['line', 5, None, 0, None], ['line', 0, None, 1, None], ['line', 1, None, 2, None], ['line', 2, None, 3, None],
+     ['line', 3, None, 4, None], ['line', 4, None, 6, None], ['node', 'w', 'BUF1'], ['line', 6, None, 7, None],
+     ['io', 0, 5], ['io', 1, 6], ['elim'], ['elim']],
+]
+
+
+def elim_source(ck):
+    """tie T for eliminate_1to1_forks: regenerate Gen/CircuitElimSrc.v (and the primitives it calls) from the current circuit.py and
+    run the translated function against the real method, full state after every step"""
+    from vcheck import gen_all, core
+    from harness import circuit_edit as ce
+    res = gen_all.generate(['CircuitPrimsSrc', 'CircuitElimSrc'])
+    err = res['CircuitElimSrc'] or res['CircuitPrimsSrc']
+    ck.obligation('translate circuit.py Circuit.eliminate_1to1_forks -> Gen/CircuitElimSrc.v (statement by statement, fail-closed; the calls '
+                  'n.remove() / out_line.remove() go to the translated primitives of Gen/CircuitPrimsSrc.v)', err is None, 'translation', err or '')
+    ck.trust('translator translate/gen_circuit_elim.py (extends the fail-closed ast translator of translate/gen_circuit_prims.py by: '
+             '`set(self.io_nodes)` and `n in ios` with Node.__hash__ / __eq__ pinned to name + kind, `for n in list(self.forks.values())` as a '
+             'structural scan over the snapshot, `continue`, calls of the translated Node.remove / Line.remove; vocabulary '
+             'Model/CircuitElimSrcLib.v; assumptions: no hash collision between None and a (name, kind) tuple, no write to .name / .kind '
+             'inside the loop (checked syntactically)); its output is additionally run against the real method on edit histories')
+    return err is None
+
+
+def elim_source_correspondence(ck, gen_ok):
+    from vcheck import core
+    from harness import circuit_edit as ce
+    src_ok = gen_ok and core.coq_make(['theories/Gen/CircuitElimSrc.vo'] + core.support_targets())[0]
+    rng = random.Random(ck.seed * 7919 + 1012)
+    hs = []
+    for ops in ELIM_SRC_SCENARIOS:
+        hs.append(ce.run_history(rng, 0, 'valid', fixed_ops=[list(o) for o in ops]))
+    for ops in ce.open_input_scenarios()[::ck.scale(4, 1)] + ce.instance_scenarios(rng, ck.scale(1, 8))[:ck.scale(12, 200)]:
+        hs.append(ce.run_history(rng, 0, 'valid', fixed_ops=ops))
+    for i in range(ck.scale(18, 200)):
+        h = ce.run_history(rng, rng.choice([12, 30, 60]), 'valid' if i % 3 else 'wild')
+        # every history ends with the call under test
+        h2 = ce.run_history(rng, 0, 'wild', fixed_ops=[list(o) if isinstance(o, list) else o for o in h['ops']] + [['elim']])
+        hs.append(h2 if len(h2['steps']) > len(h['steps']) else h)
+    n_el = sum(1 for h in hs for s in h['steps'] if s[0][0] == 'elim')
+    n_rm = 0
+    for h in hs:
+        prev = None
+        for op, clean, v in h['steps']:
+            if op[0] == 'elim' and v is not None and prev is not None and len(v['nodes']) < len(prev['nodes']):
+                n_rm += 1
+            prev = v if v is not None else prev
+    ck.count(n_el, 'eliminate steps on the translated source')
+    ck.nontrivial(('elim-src', n_el, n_rm))
+    bad, ran = [], src_ok
+    if src_ok:
+        parts = [list(range(i, min(i + 12, len(hs)))) for i in range(0, len(hs), 12)]
+        texts = []
+        for part in parts:
+            t = ce.cases_file_both([hs[i]['steps'] for i in part])
+            line = [l for l in t.splitlines() if l.startswith('Definition step_s :=')]
+            assert len(line) == 1
+            texts.append(t.replace(line[0] + '\n', ELIM_SRC_STEP))
+        outs = ck.coq_eval_many('elimsrc', texts, jobs=8, timeout=900)
+        for part, (ok, out) in zip(parts, outs):
+            pairs, pairs_src = ce.parse_pairs_both(out) if ok else (None, None)
+            if pairs_src is None:
+                ran = False
+                bad.append(('coq', out[-300:]))
+            else:
+                bad += [(part[ci], k) for ci, k in pairs_src]
+    ck.obligation(f'translated source Gen/CircuitElimSrc.v = implementation: on {len(hs)} edit histories (port forks with one driver and one '
+                  f'reader, chains of 1:1 forks, driverless stub forks of substituted instances, random valid / wild histories) every '
+                  f'eliminate_1to1_forks() step ({n_el}, {n_rm} of them removing nodes) is executed by the translated method and every primitive '
+                  f'step by the translated primitives: node table, line table, dicts, io list after every step and which calls raise',
+                  ran and not bad and n_el > 0 and n_rm > 0, 'correspondence',
+                  (f'failing (history, step): {bad[:6]}' if src_ok else 'Gen/CircuitElimSrc.v does not compile / was not generated'))
+
+
 def run(ck):
     from kyupy import techlib
+    gen_ok = elim_source(ck)
     if THEOREMS:
         ck.prove('C10', THEOREMS)
+    elim_source_correspondence(ck, gen_ok)
     view_correspondence(ck)
     cell_corr.run_lib(ck)      # ck.prove('C10Lib', THEOREMS_LIB) + exhaustive library correspondence / oracle
     rng = random.Random(ck.seed * 7919 + 10)
